@@ -202,15 +202,30 @@ func main() {
 	case "worker":
 		workerMain(f)
 	case "record":
-		r := rand.New(rand.NewSource(*seed))
-		f.Gen(r, *n, *tier, func(c Case) {
-			if stopEarly() {
-				return
-			}
-			c = normalize(c)
-			w.Write(finish(exec(c), c))
-			w.WriteByte('\n')
-		})
+		// The generators use the library too (constructors, AsText, marshalling of corpus entries). If the library
+		// panics there, the generator is restarted with a derived seed for the cases still missing (at most five times):
+		// a defect outside the operation under test must not leave the family without a verdict.
+		emitted := 0
+		for attempt := 0; attempt < 6 && emitted < *n; attempt++ {
+			func() {
+				defer func() {
+					if rec := recover(); rec != nil {
+						fmt.Fprintf(os.Stderr, "generator of family %s panicked (attempt %d): %v\n", fam, attempt, rec)
+					}
+				}()
+				r := rand.New(rand.NewSource(*seed + int64(attempt)*1000003))
+				f.Gen(r, *n-emitted, *tier, func(c Case) {
+					if stopEarly() {
+						return
+					}
+					c = normalize(c)
+					w.Write(finish(exec(c), c))
+					w.WriteByte('\n')
+					emitted++
+				})
+				emitted = *n // the generator returned normally
+			}()
+		}
 	case "one":
 		sc := bufio.NewScanner(os.Stdin)
 		sc.Buffer(make([]byte, 1<<20), 1<<28)
